@@ -104,7 +104,7 @@ def size_ok(o):
 
 OPS = ["new", "new", "svd", "add", "sub", "mul", "kron", "matmul", "transpose", "scalar", "clone", "to_ttm", "round", "sum", "getitem",
        "permute", "reshape", "cat", "pad", "diag", "mprod", "set_core", "reduce_dims", "dmrg", "hadamard", "amen_mm", "amen_mv", "solve", "divide",
-       "interp", "qtt", "dot", "norm", "factory", "saveload"]
+       "interp", "qtt", "dot", "norm", "factory", "saveload", "set_core_neg", "ctor_from_N", "ctor_from_N", "scribble", "scribble"]
 
 def do_step(w, op):
     """performs one call; returns the log entry (name) or None when the op is not applicable"""
@@ -170,8 +170,11 @@ def do_step(w, op):
     if op == "scalar":
         i = w.pick()
         if i is None: return None
-        k = rng.choice(["*2", "2*", "-", "/2", "*0", "+"])
+        k = rng.choice(["*2", "2*", "-", "/2", "*0", "+", "0-", "-0", "+0", "0+", "1-"])
         x = P[i]
+        if k in ("0-", "-0", "+0", "0+", "1-"):
+            o = (0 - x) if k == "0-" else ((x - 0) if k == "-0" else ((x + 0) if k == "+0" else ((0 + x) if k == "0+" else (1 - x))))
+            w.add(o, "KNew %s" % shlist_coq(o)); return "scalar%s(%d)" % (k, i), None
         o = x * 2 if k == "*2" else (2.0 * x if k == "2*" else (-x if k == "-" else (x / 2.0 if k == "/2" else (x * 0 if k == "*0" else +x))))
         if k == "*0": w.add(o, "KNew %s" % shlist_coq(o))
         else: w.add(o, "KScalar %d" % i)
@@ -257,6 +260,38 @@ def do_step(w, op):
         if x.is_ttm: shp[2] = rng.choice([1, 2, 3])
         x.set_core(k, torch.tensor(ttgen.rand_core(rng, tuple(shp)), dtype=x.cores[0].dtype))
         w.calls.append("KSetCore %d %d (%s)" % (i, k, cshape_coq(tuple(shp)))); return "set_core(%d,%d)" % (i, k), i
+    if op == "set_core_neg":
+        # a negative core index is not a valid argument (InvalidArguments); if it is accepted the object must still be well formed
+        i = w.pick()
+        if i is None: return None
+        x = P[i]; d = len(x.N); k = -rng.randint(1, d)
+        R = [int(r) for r in x.R]
+        shp = [R[k], rng.choice([1, 2, 3])] + ([rng.choice([1, 2])] if x.is_ttm else []) + [R[k + 1]]     # ranks read the way a careless guard would
+        try:
+            x.set_core(k, torch.tensor(ttgen.rand_core(rng, tuple(shp)), dtype=x.cores[0].dtype))
+        except Exception:
+            return "set_core_neg(%d,%d) [rejected]" % (i, k), None
+        return "set_core_neg(%d,%d) [accepted]" % (i, k), i
+    if op == "ctor_from_N":
+        # a new object built from the dense value and the N list of an existing one: the two must not share their mode-size lists
+        i = w.pick(lambda o: not o.is_ttm and size_ok(o) and int(np.prod(o.N)) <= 4096)
+        if i is None: return None
+        x = P[i]
+        o = torchtt.TT(x.full(), x.N, eps=1e-12)
+        w.add(o, "KNew %s" % shlist_coq(o)); return "TT(full(%d), N of %d)" % (i, i), None
+    if op == "scribble":
+        # the lists handed out by N / M / R / shape are the caller's: writing into them must not reach the object
+        i = w.pick()
+        if i is None: return None
+        x = P[i]
+        for name in ("N", "R") + (("M",) if x.is_ttm else ()):      # `shape` is a plain attribute, not an accessor: writing to it is the caller overwriting a field
+            try:
+                l = getattr(x, name)
+                if isinstance(l, list) and l:
+                    l[rng.randrange(len(l))] = 97
+            except Exception:
+                pass
+        return "scribble(%d)" % i, None
     if op == "reduce_dims":
         i = w.pick(lambda o: any(n > 1 for n in o.N))
         if i is None: return None
